@@ -206,6 +206,28 @@ def _api_run(infile, outpath, many, infmt, outfmt, allow, pre):
     return err, content
 
 
+def _convert_run(infile, outpath, many, infmt, outfmt, allow, pre):
+    import numpy as np
+
+    from iodata.__main__ import convert
+
+    if pre is not None:
+        with open(outpath, "w") as fh:
+            fh.write(pre)
+    old = np.geterr()
+    with warnings.catch_warnings():
+        warnings.simplefilter("ignore")
+        try:
+            convert(infile, outpath, many, infmt, outfmt, allow)
+            err = None
+        except Exception as exc:  # noqa: BLE001
+            err = type(exc).__name__
+        finally:
+            np.seterr(**old)
+    content = open(outpath, "rb").read() if os.path.exists(outpath) else None
+    return err, content
+
+
 def _cli_run(infile, outpath, many, infmt, outfmt, allow, pre):
     if os.path.exists(outpath):
         os.unlink(outpath)
@@ -266,7 +288,13 @@ def _degenerate_inputs(rng):
 
 def check_case(case, work):
     fname, target, many, explicit, allow, pre = case[:6]
-    if len(case) > 6:
+    if len(case) > 7 and case[7] and case[7][0] == "symlink-in":
+        gd = tempfile.mkdtemp(dir=work)
+        real = os.path.join(gd, case[7][1])
+        shutil.copyfile(str(REPO / "iodata" / "test" / "data" / case[7][2]), real)
+        infile = os.path.join(gd, fname)
+        os.symlink(real, infile)
+    elif len(case) > 6:
         gd = tempfile.mkdtemp(dir=work)
         infile = os.path.join(gd, fname)
         with open(infile, "w") as fh:
@@ -290,6 +318,23 @@ def check_case(case, work):
     d2 = tempfile.mkdtemp(dir=work)
     rc, c_bytes, stderr = _cli_run(infile, os.path.join(d2, name), many, infmt, outfmt, allow, pre)
     prebytes = None if pre is None else pre.encode()
+    # third executor: the library function convert() in this process, on a copy of the input at a path (and with a
+    # modification time) that earlier cases of this thread have used with other content
+    import threading
+
+    fixed = os.path.join(work, f"fixed-{threading.get_ident()}")
+    os.makedirs(fixed, exist_ok=True)
+    suffix = os.path.splitext(infile)[1]
+    base = os.path.basename(infile)
+    by_prefix = base.upper().startswith(("FCIDUMP", "POSCAR", "CHGCAR", "AECCAR", "LOCPOT"))  # formats recognised by a name prefix
+    fin = os.path.join(fixed, ("input" + suffix) if (suffix and not by_prefix) else base)
+    shutil.copyfile(infile, fin)
+    os.utime(fin, (1_000_000_000, 1_000_000_000))
+    d3 = tempfile.mkdtemp(dir=work)
+    f_err, f_bytes = _convert_run(fin, os.path.join(d3, name), many, infmt, outfmt, allow, pre)
+    if (f_err, f_bytes) != (a_err, a_bytes):
+        return "bad", (f"convert() in-process: {f_err or 'returns'} with {'the same' if f_bytes == a_bytes else 'different'} "
+                       f"output bytes, the API calls: {a_err or 'return'}")
     if rc == 0:
         if a_err is not None:
             return "bad", f"CLI exit 0 but the API calls raise {a_err}"
@@ -321,6 +366,10 @@ def _cases(ctx):
             if target in VERBATIM:
                 e = True
             cases.append((fname, target, many, e, a, p))
+    # paths that are symbolic links: the format is inferred from the name given, not from the link target's name
+    for link, target_name, src, tgt in (("in.xyz", "data.sdf", "water.xyz", "xyz"), ("in.sdf", "store.xyz", "example.sdf", "xyz"),
+                                        ("cur.xyz", "frame_0042.pdb", "water.xyz", "pdb")):
+        cases.append((link, tgt, False, False, False, None, None, ("symlink-in", target_name, src)))
     for name, text in _degenerate_inputs(rng).items():
         targets = ["molden", "fchk"] if name.endswith(".molden") else (["cube", "xyz"] if name.startswith("CHGCAR") else ["xyz", "pdb"])
         for t in targets:
